@@ -444,9 +444,10 @@ class SymdelDB:
         """
 
         ans = []
-        threshold = max_custom_distance
-        if custom_distance in (None, 'hamming') or max_custom_distance == float('inf'):
-            threshold = self.max_edits
+        # with a callable custom distance both radii apply (as in kdtree and hash_based):
+        # Levenshtein distance <= max_edits and custom distance <= max_custom_distance
+        is_custom = custom_distance not in (None, 'hamming')
+        threshold = max_custom_distance if is_custom else self.max_edits
         if custom_distance == 'hamming':
             custom_distance = _hamming_replacement
         elif custom_distance is None:
@@ -467,6 +468,8 @@ class SymdelDB:
             for j in j_indices:
                 dist = custom_distance(seq, self.seqs[j])
                 if dist > threshold:
+                    continue
+                if is_custom and levenshtein(seq, self.seqs[j]) > self.max_edits:
                     continue
                 ans.append((i, j, dist))
 
@@ -533,9 +536,9 @@ def symdel(seqs, max_edits=1, max_returns=None, n_cpu=1,
 
     if seqs2 is None:
         ans = set()
-        threshold = max_custom_distance
-        if custom_distance in (None, 'hamming') or max_custom_distance == float('inf'):
-            threshold = max_edits
+        # with a callable custom distance both radii apply (as in kdtree and hash_based)
+        is_custom = custom_distance not in (None, 'hamming')
+        threshold = max_custom_distance if is_custom else max_edits
         if custom_distance == 'hamming':
             custom_distance = _hamming_replacement
         elif custom_distance is None:
@@ -548,6 +551,8 @@ def symdel(seqs, max_edits=1, max_returns=None, n_cpu=1,
             for i, j in combinations(values, 2):
                 dist = custom_distance(symdeldb.seqs[i], symdeldb.seqs[j])
                 if dist > threshold:
+                    continue
+                if is_custom and levenshtein(symdeldb.seqs[i], symdeldb.seqs[j]) > max_edits:
                     continue
                 ans.add((i, j, dist))
                 ans.add((j, i, dist))
